@@ -14,15 +14,34 @@
               the specification is relational where the code is free).
    Accepts(dt, s) / Unsure(dt, s) are the boolean views of FieldVerdict.
 
-   Documented disagreements that are mapped to "either" (each is named at its
-   recogniser):  empty Z value; scalar top-level JSON; "-0" in an unsigned
-   array; GFA1 segment name containing "+," / "-,"; `*` as an element of a
-   GFA1 overlap list; empty C position; "-0" as GFA2 position; one-element
-   and negative traces; "+" sign of a GFA2 positional integer; negative
-   segment length; record types that do not start with a letter and L/C/P as
-   GFA2 custom record types; tag names starting with a digit in GFA2;
-   predefined tags declared by only one of specification / gfapy; a path
-   with as many overlaps as segments (circular); empty generic field.       *)
+   Documented disagreements / silences that are mapped to "either" (each is
+   named at its recogniser):
+     tags       empty Z value (SAM and the GFA2 tag pattern allow it, GFA1 does not);
+                scalar top-level JSON (RFC 8259 yes, RFC 4627 and gfapy's docs no);
+                JSON numbers with three-digit exponents and floats whose exponent may
+                leave the IEEE single range (value range not expressible here);
+                "-0" in an unsigned B array; tag names starting with a digit in GFA2
+                (GFA2 pattern [A-Za-z0-9][A-Za-z0-9], GFA1 [A-Za-z][A-Za-z0-9]);
+                predefined tags declared by only one of specification / gfapy
+                (RC and MQ on C, TS on a GFA1 header, GFA1's segment tags on GFA2
+                segments, VN on F).  Upper-case names that are not predefined are
+                well-formed custom tags (gfapy's tutorial; GFA1 only "reserves" them).
+     GFA1       segment name containing "+," or "-,"; a segment list that only parses
+                with commas inside names; `*` as an element of a path's overlap list; a
+                path with as many overlaps as segments (circular, gfapy only); empty
+                containment position (the GFA1 table allows zero digits); a negative LN on a
+                segment without sequence; user record types (none in GFA1)
+     GFA2       "-0" as a position; one-element and negative traces; "+" sign of a
+                positional integer (<int> is {-}[0-9]+, gfapy documents [-+]?[0-9]+);
+                signed segment length; record types not starting with a letter and L/C/P
+                as user record types; empty field of a user record; begin > end on a
+                line outside a Gfa (gfapy documents the check on connection); `$`
+                where the segment's sequence is absent or differs in length from slen
+                (slen is "an indication to a drawing program"); a position equal to the
+                length without `$` (the property states only the other direction)
+     lines      one line terminator at the very end of a comment text; a document with
+                duplicate identifiers (C09) or a GFA1 path without its links (gfapy
+                requires them, the GFA1 text does not); comments in rGFA             *)
 EXTENDS Naturals, Sequences, FiniteSets, Util
 
 -----------------------------------------------------------------------------
@@ -109,10 +128,26 @@ IsFloat(s) == LET u == StripSign(s, {"+", "-"})
   IF e = 0 THEN IsMantissa(u)
   ELSE IsMantissa(SubSeq(u, 1, e - 1)) /\ IsInt(From(u, e + 1))
 
+\* The value range of a float ("single-precision floating number") cannot be expressed
+\* in TLA+; a numeral whose exponent reaches 38 or that is longer than 30 characters may
+\* leave the range of an IEEE single: no verdict for those.
+ExpDigits(s) == LET u == StripSign(s, {"+", "-"})
+                    e == FirstIdx(u, {"e", "E"}) IN
+                IF e = 0 THEN <<"0">> ELSE StripZeros(StripSign(From(u, e + 1), {"+", "-"}))
+MayOverflow(s) == Len(s) > 30 \/ Len(ExpDigits(s)) >= 3
+                  \/ (Len(ExpDigits(s)) = 2 /\ ToNat(ExpDigits(s)) >= 38)
+FloatVerdict(s) == IF ~IsFloat(s) THEN "rej" ELSE V(~MayOverflow(s), TRUE)
+\* some "e" or "E" of the text is followed by an exponent of three or more digits
+HasBigExponent(s) ==
+  \E k \in DOMAIN s :
+    /\ s[k] \in {"e", "E"}
+    /\ LET j == IF k + 1 <= Len(s) /\ s[k + 1] \in {"+", "-"} THEN k + 2 ELSE k + 1 IN
+       j + 2 <= Len(s) /\ s[j] \in Digit /\ s[j + 1] \in Digit /\ s[j + 2] \in Digit
+
 -----------------------------------------------------------------------------
 (* tag datatypes (GFA1 "Optional fields" table) *)
 VInt(s)   == V(IsInt(s), FALSE)
-VFloat(s) == V(IsFloat(s), FALSE)
+VFloat(s) == FloatVerdict(s)
 \* Z: [ !-~]+ in GFA1; SAM (current) and the GFA2 tag pattern allow the empty string
 VString(s) == V(s # <<>> /\ AllIn(s, Print), s = <<>>)
 VChar(s)  == V(Len(s) = 1 /\ s[1] \in Graph, FALSE)
@@ -140,7 +175,7 @@ VIntElem(t, e) ==
 VNumArray(s) ==
   IF Len(s) < 3 \/ s[1] \notin {"c", "C", "s", "S", "i", "I", "f"} \/ s[2] # "," THEN "rej"
   ELSE LET el == Split(From(s, 3), ",") IN
-       IF s[1] = "f" THEN V(AllElems(el, IsFloat), FALSE)
+       IF s[1] = "f" THEN Worst({FloatVerdict(el[k]) : k \in DOMAIN el})
        ELSE Worst({VIntElem(s[1], el[k]) : k \in DOMAIN el})
 
 (* J: JSON (RFC 8259 grammar) without tab/newline: a recursive-descent
@@ -214,8 +249,10 @@ IsJsonText(s) == LET i == SkipWs(s, 1)
                  v # 0 /\ SkipWs(s, v) = Len(s) + 1
 \* an object or an array at top level is JSON by every document; a scalar top
 \* level is JSON by RFC 7159/8259 but not by RFC 4627 nor by gfapy's documentation
+\* (a JSON number has no range by the grammar, but RFC 8259 allows an implementation to
+\* limit it: a text with a three-digit exponent is left unjudged)
 VJson(s) == IF s = <<>> \/ ~AllIn(s, Print) \/ ~IsJsonText(s) THEN "rej"
-            ELSE V(s[SkipWs(s, 1)] \in {"[", "{"}, TRUE)
+            ELSE V(s[SkipWs(s, 1)] \in {"[", "{"} /\ ~HasBigExponent(s), TRUE)
 
 -----------------------------------------------------------------------------
 (* positional datatypes *)
@@ -497,16 +534,20 @@ PathJunctionsServed(D, f) ==
                         /\ D[j][2] = StripOr(sl[k]) /\ D[j][3] = <<OrOf(sl[k])>>
                         /\ D[j][4] = StripOr(sl[k + 1]) /\ D[j][5] = <<OrOf(sl[k + 1])>>
 
-\* GFA2: `$` only on the last position of the segment (its slen).  Only judged when the
-\* length is unambiguous (sequence absent or as long as slen).
+\* GFA2: `$` only on the last position of the segment.  The GFA2 text calls slen "an indication
+\* to a drawing program" that need not be the actual length, and gfapy (and its own test data)
+\* measure the given sequence: judged only when the sequence is given and as long as slen.
 SegLine2(D, name) == LET K == {j \in DOMAIN D : IsStd("gfa2", D[j]) /\ RT(D[j]) = "S" /\ D[j][2] = name} IN
                      IF Cardinality(K) = 1 THEN D[CHOOSE j \in K : TRUE] ELSE <<>>
 VDollarAt(D, name, p) ==
-  IF LastOf(p) # "$" THEN "acc"
-  ELSE LET sg == SegLine2(D, name) IN
-       IF sg = <<>> \/ ~IsUInt(sg[3]) THEN "either"
-       ELSE IF sg[4] # <<"*">> /\ ~DecIs(sg[3], Len(sg[4])) THEN "either"
-       ELSE V(DecEq(PosDigits(p), sg[3]), FALSE)
+  LET sg == SegLine2(D, name)
+      known == sg # <<>> /\ IsUInt(sg[3]) /\ sg[4] # <<"*">> /\ DecIs(sg[3], Len(sg[4])) IN
+  IF LastOf(p) # "$"
+  THEN \* the GFA2 text wants the `$` if and only if the position is the last one; the
+       \* property only states the "only if" direction: the converse is not judged
+       V(~(known /\ IsUInt(p) /\ DecEq(p, sg[3])), TRUE)
+  ELSE IF ~known THEN "either"
+  ELSE V(DecEq(PosDigits(p), sg[3]), FALSE)
 VDollarLine(D, f) ==
   LET rt == RT(f) IN
   IF rt = "E" THEN Worst({VDollarAt(D, StripOr(f[3]), f[5]), VDollarAt(D, StripOr(f[3]), f[6]),
